@@ -32,7 +32,7 @@ impl RecordsBounds {
 
         let end = if key_is_exact {
             Bound::Included(start.clone())
-        } else if increment_by_one(&mut key_end) {
+        } else if increment_prefix(&mut key_end) {
             Bound::Excluded((ns, author, key_end.into()))
         } else if increment_by_one(&mut author_end) {
             Bound::Excluded((ns, author_end, Bytes::new()))
@@ -116,7 +116,7 @@ impl ByKeyBounds {
 
                 let mut ns_end = ns.to_bytes();
                 let mut key_end = prefix.to_vec();
-                let end = if increment_by_one(&mut key_end) {
+                let end = if increment_prefix(&mut key_end) {
                     Bound::Excluded((ns.to_bytes(), key_end.into(), [0u8; 32]))
                 } else if increment_by_one(&mut ns_end) {
                     Bound::Excluded((ns_end, Bytes::new(), [0u8; 32]))
@@ -170,6 +170,20 @@ fn increment_by_one(value: &mut [u8]) -> bool {
         }
     }
     false
+}
+
+/// Turn a key prefix into the smallest byte string that is greater than all keys starting with the prefix.
+///
+/// Trailing 255 bytes are removed before incrementing: carrying over into the previous byte while keeping
+/// the length would yield a bound that also covers keys that do not start with the prefix
+/// (e.g. `[1, 255]` would become `[2, 0]`, which is greater than the unrelated key `[2]`).
+///
+/// Returns false if there is no such bound, i.e. if the prefix is empty or all bytes are 255.
+fn increment_prefix(prefix: &mut Vec<u8>) -> bool {
+    while !prefix.is_empty() && prefix[prefix.len() - 1] == 255 {
+        prefix.pop();
+    }
+    increment_by_one(prefix)
 }
 
 fn map_bound<'a, T, U: 'a>(bound: &'a Bound<T>, f: impl Fn(&'a T) -> U) -> Bound<U> {
